@@ -34,5 +34,20 @@ def apply (t rhs : Term) : Except TermError Term :=
   | abs b => .ok (applyAux rhs 1 b)
   | _ => .error .NotAbs
 
+/-- `apply` as a method on `&mut self`: the receiver AFTER the call together with the returned `Result`.
+`self.unabs_ref()?` comes first, so on `Err` nothing has been written: the receiver is returned as it was. -/
+def applyMut (t rhs : Term) : Term × Except TermError Unit :=
+  match t with
+  | abs b => (applyAux rhs 1 b, .ok ())
+  | _ => (t, .error .NotAbs)
+
+/-- largest variable index occurring in a term (0 for none beyond UD).  Indices of the crate are `usize`; the model's
+are unbounded: where a substitution would create an index above `usize::MAX` the crate panics ("De Bruijn index
+overflow") instead of returning, and the boundary operations of the driver report that case by this function. -/
+def maxIndex : Term → Nat
+  | var i => i
+  | abs b => maxIndex b
+  | app l r => max (maxIndex l) (maxIndex r)
+
 end Term
 end LC
